@@ -542,7 +542,7 @@ func (r *report) writeEvidence(viol int) {
 		for _, v := range res.Violations {
 			samples = append(samples, map[string]interface{}{"violation": v})
 		}
-		if res.PathLimitHit || res.CapHits > 0 || res.Unwind > 0 && !res.Cfg.UnwindIsHang {
+		if res.PathLimitHit || res.CapHits > 0 {
 			reduced = append(reduced, res.Name)
 		}
 	}
